@@ -659,6 +659,9 @@ func runC44(t interface {
 	Fatalf(string, ...any)
 	Helper()
 }, rec *ev.Recorder, h *c44Harness, sc *c44Scenario, hammerSeed int64) (windowsHit int) {
+	if c44Timeouts.Load() >= 3 {
+		t.Fatalf("machinery: inconclusive - connections got no answer within %v earlier in this run", c44ProbeBudget)
+	}
 	r := &c44Runner{t: t, rec: rec, h: h, sc: sc, taint: map[string]bool{}, hammer: map[string]bool{}, cur: sc.Initial}
 	r.inj = newInjector()
 	r.path = filepath.Join(h.dir, "client.yaml")
@@ -887,7 +890,7 @@ func TestC44(t *testing.T) {
 
 	var windows atomic.Int64
 	var counter atomic.Int64
-	ev.RapidCheck(t, 160, 4000, func(t *rapid.T) {
+	ev.RapidCheck(t, 500, 6000, func(t *rapid.T) {
 		sc := genScenario(t, h)
 		n := runC44(t, rec, h, sc, ev.ShardSeed()+counter.Add(1)*7)
 		windows.Add(int64(n))
